@@ -81,6 +81,7 @@ class AttachUnit(Unit):
         S = scsimod().SCSI
         w = World()
         self.world = w
+        self.tables_before = table_fingerprint()
         d1 = AnsweringDevice(C.table(case["initial"]), w, a.resp1)
         d2 = AnsweringDevice(C.table(case["second_initial"]), w, a.resp2)
         self.d1, self.d2 = d1, d2
@@ -110,10 +111,28 @@ class AttachUnit(Unit):
         yield "C16", "re-attach:facade-now-uses-the-second-device", out.value.device is d2
         yield "C16", "re-attach:first-device-untouched", d1.opcodes is sel1 and len([t for t in w.trace if t[0] == "device.execute" and t[6] is d1]) == 1
         yield "C16", "re-attach:blocksize-kept", out.value.blocksize == 512
+        # attaching selects among the command sets, it never edits them (they are shared by every device and facade)
+        after = table_fingerprint()
+        for sname in C.SETS:
+            yield "C16", "attach-leaves-the-command-set-tables-unchanged:%s" % sname, after[sname] == self.tables_before[sname]
 
     def canaries(self, case, a, out, X):
         if out.kind == "return":
             yield "canary:always-sbc", self.d2.opcodes is C.table("sbc") and (a.resp2[0] & 0x1F) == 5
+
+
+def table_fingerprint():
+    """{set name: [(entry name, opcode value, [(service action name, value)])]} of the five command sets"""
+    out = {}
+    for sname in C.SETS:
+        t = C.table(sname)
+        rows = []
+        for k in t.keys:
+            op = getattr(t, k)
+            sa = getattr(op, "serviceaction", None)
+            rows.append((k, getattr(op, "value", op), [(n, getattr(sa, n)) for n in sa.keys] if sa is not None else []))
+        out[sname] = rows
+    return out
 
 
 class _Snap:
